@@ -18,6 +18,7 @@ import (
 	"fmt"
 	"math"
 	"os"
+	"path/filepath"
 	"sort"
 	"strings"
 	"sync"
@@ -50,6 +51,10 @@ const keyRetry = "C17/retry-after-failed-overlap-delete"
 // fails has already changed the dictionary the key manager serves: regions are then
 // encrypted with a data key that was never persisted.
 const keyRotate = "C17/rotation-save-failure-serves-unpersisted-key"
+
+// keyRead: LeveldbKV.LoadRange ignores the iterator's error: a read fault of the
+// region storage ends the load early and the load reports success.
+const keyRead = "C17/leveldb-read-fault-reported-as-complete-load"
 
 func TestMain(m *testing.M)   { vkit.MainWith(m, "C17", encCleanup) }
 func TestProp(t *testing.T)   { vkit.RunAll(t) }
@@ -502,6 +507,7 @@ type LoadPlan struct {
 	//  delete : leveldb, the removal of an overlapped/stale leftover fails (handle closed underneath)
 	//  corrupt: leveldb, one stored record cannot be decoded (restored before the retry)
 	//  range  : memory kv, LoadRange fails from the At-th call on until the page size is exhausted
+	//  read   : leveldb, the handle is closed underneath before the call (every read fails)
 	Fault string `json:"fault,omitempty"`
 	At    int    `json:"at,omitempty"`
 	Conc  int    `json:"conc,omitempty"` // leveldb: this many goroutines call LoadRegionsOnce together
@@ -511,7 +517,9 @@ func genLoadPlan(t *rapid.T, backend string) LoadPlan {
 	var p LoadPlan
 	switch backend {
 	case "leveldb":
-		switch pick(t, "loadPlan", []string{"", "", "delete", "delete", "corrupt", "corrupt", "conc", "conc"}) {
+		switch pick(t, "loadPlan", []string{"", "", "delete", "delete", "corrupt", "corrupt", "conc", "conc", "read"}) {
+		case "read":
+			p.Fault = "read"
 		case "delete":
 			p.Fault = "delete"
 		case "corrupt":
@@ -1782,6 +1790,12 @@ func runRegionCase(c RCase) (info vkit.Info, err error) {
 			var corruptID uint64
 			injected := false
 			switch {
+			case c.Load.Fault == "read" && m.leveldb && vkit.Known(keyRead):
+				info.Exclude(keyRead) // known finding: the read fault is left out
+			case c.Load.Fault == "read" && m.leveldb:
+				// read fault: the call must not report a complete load
+				f.rs.LeveldbKV.DB.Close()
+				fired, injected = true, true
 			case c.Load.Fault == "delete" && m.leveldb:
 				armed = true
 			case c.Load.Fault == "corrupt" && m.leveldb && len(pre) > 0:
@@ -2265,4 +2279,74 @@ func TestFinding_RotationSaveFailureServesUnpersistedKey(t *testing.T) {
 	ev.resetKeys()
 	vkit.Finding(t, keyRotate, serr != nil && id2 != 0 && id2 != id1 && kerr != nil && serr2 == nil && lerr != nil,
 		fmt.Sprintf("dictionary with aes128 current key %d; new key manager with method aes256, SetLeadership with the key-dictionary txn failing returned: %v; it now serves current key %d; a key manager created from etcd: GetKey(%d) -> %v; SaveRegion through the first returned %v, LoadRegions through the second returned %d regions and: %v", id1, serr, id2, id2, kerr, serr2, n, lerr))
+}
+
+// TestFinding_LeveldbReadFaultReportedAsCompleteLoad: 300 regions flushed to the
+// leveldb region storage; (a) the handle is closed underneath, (b) a block of the
+// table file is corrupted: LoadRegions returns nil although it delivered only a part
+// (or nothing) of what is stored (LeveldbKV.LoadRange never looks at iter.Error()).
+func TestFinding_LeveldbReadFaultReportedAsCompleteLoad(t *testing.T) {
+	dir, err := os.MkdirTemp(tmpBase(), "c17-probe-")
+	if err != nil {
+		t.Skip(err)
+	}
+	defer os.RemoveAll(dir)
+	f := &rfix{backend: "leveldb", fk: faultkv.New(kv.NewMemoryKV()), dir: dir}
+	if err := f.openRS(); err != nil {
+		t.Fatalf("open: %v", err)
+	}
+	defer func() {
+		if f.rs != nil {
+			f.rs.Close()
+		}
+	}()
+	st := f.storage()
+	for id := uint64(1); id <= 300; id++ {
+		r := &metapb.Region{Id: id, StartKey: []byte(fmt.Sprintf("k%04d", id)), EndKey: []byte(fmt.Sprintf("k%04d", id+1)),
+			RegionEpoch: &metapb.RegionEpoch{ConfVer: 1, Version: 1}, Peers: []*metapb.Peer{{Id: id*10 + 1, StoreId: 1}}}
+		if err := st.SaveRegion(r); err != nil {
+			t.Fatalf("save: %v", err)
+		}
+	}
+	if err := st.Flush(); err != nil {
+		t.Fatalf("flush: %v", err)
+	}
+	count := func() (int, error) {
+		n := 0
+		err := f.storage().LoadRegions(func(r *core.RegionInfo) []*core.RegionInfo { n++; return nil })
+		return n, err
+	}
+	// (a) closed handle
+	f.rs.LeveldbKV.DB.Close()
+	nA, errA := count()
+	h, err := kv.NewLeveldbKV(dir)
+	if err != nil {
+		t.Fatalf("reopen: %v", err)
+	}
+	f.rs.LeveldbKV = h
+	nOK, errOK := count()
+	// (b) corrupted table block: close, reopen (journal -> table), close, damage, reopen
+	f.rs.Close()
+	f.rs = nil
+	nB, errB, damaged := -1, error(nil), false
+	if err := f.openRS(); err == nil {
+		f.rs.Close()
+		f.rs = nil
+		files, _ := filepath.Glob(filepath.Join(dir, "*.ldb"))
+		for _, fn := range files {
+			if b, e := os.ReadFile(fn); e == nil && len(b) > 2000 {
+				for i := len(b) / 2; i < len(b)/2+16; i++ {
+					b[i] ^= 0xff
+				}
+				damaged = os.WriteFile(fn, b, 0o644) == nil
+			}
+		}
+		if damaged && f.openRS() == nil {
+			nB, errB = count()
+		}
+	}
+	repA := errA == nil && nA < 300
+	repB := damaged && nB >= 0 && errB == nil && nB < 300
+	vkit.Finding(t, keyRead, nOK == 300 && errOK == nil && (repA || repB),
+		fmt.Sprintf("300 regions flushed to the leveldb region storage; with the handle closed underneath LoadRegions returned %d regions and error %v; with a healthy handle %d regions and %v; with 16 bytes of the table file damaged %d regions and error %v", nA, errA, nOK, errOK, nB, errB))
 }
